@@ -23,7 +23,7 @@ INFO = {
                    "read_arkzkey_from_bytes_uncompressed on ARKZKEY_BYTES with it; the embedded byte constants have the sizes of the "
                    "bundled resource files; the arkzkey reader copies each of the nine matrix fields to the same-named field.",
     "r17_6": "R17-6 (shared with C07 R07-1..R07-3): the three back ends build membership proofs by one convention (stored sibling at every level, direction bits, root recomputation)",
-    "r17_5": "R17-5: the tree back ends selectable by features agree on what a rejected operation leaves behind (nothing), the high-water rule, the delete guard, the parent-recomputation shape, the subtree-root formula and (persistent back end) plain delegation to pmtree (shared with C06 R06-2..R06-5) R17-7 (shared, C06 R06-11): the persistent configuration's store adapter drops or alters no record.",
+    "r17_5": "R17-5: the tree back ends selectable by features agree on what a rejected operation leaves behind (nothing), the high-water rule, the delete guard, the parent-recomputation shape, the subtree-root formula and (persistent back end) plain delegation to pmtree (shared with C06 R06-2..R06-5) R17-7 (shared, C06 R06-11): the persistent configuration's store adapter drops or alters no record. R17-4 also pins the declaration order of the three arkzkey structs (the derived reader follows it: it is the file layout) and the order of the two reads (proving key, then matrices).",
     "not_decided": "identity of the keys/matrices stored in rln_final.zkey and rln_final.arkzkey and acceptance of messages across "
                    "configurations (needs running both loaders / provers); equality of roots across back ends over histories (C06)",
     "assumptions": ["rustc's type checking; the bundled resource files are the ones include_bytes! embeds (sizes compared)"],
